@@ -18,6 +18,7 @@ CFG_THOROUGH = CFG_QUICK + [
     dict(comp="gzip", bs=4096, set_uid=77),
     dict(comp="zstd", bs=4096, set_gid=88, set_uid=99),
     dict(comp="gzip", bs=4096, all_root=1),
+    dict(comp="zstd", bs=1048576),
 ]
 CFG_OPTION_QUICK = [
     dict(comp="gzip", bs=4096, defaults=dict(uid=11, gid=12, mode=0o711, mtime=12345)),
